@@ -35,7 +35,15 @@ def table_lines():
 
 def render(name, s, e, nlook):
     p = TracesParser(E.codes(), {}, {})
-    evs = [E.ev(name, 1, s)] + lookups(nlook) + [E.ev(name, 2, e)]
+    look = lookups(nlook)
+    if nlook:
+        # paths that contain the call's own name (with and without the suffix)
+        short = name[4:].replace('sys_', '').replace('_nocancel', '')
+        from mc import build as B
+        look = []
+        for i in range(nlook):
+            look += [E.ev('VFS_LOOKUP', q, data=d) for d, q in B.lookup_chunks(0x90 + i, f'/usr/{short}/lib{short}_nocancel.{i}')]
+    evs = [E.ev(name, 1, s)] + look + [E.ev(name, 2, e)]
     out = [t for t in p.feed_generator(E.restamp(evs)) if t.ktraces[0].eventid == evs[0].eventid]
     return [str(t) for t in out]
 
